@@ -117,14 +117,14 @@ theorem exhausted_of_rel {c : Cfg} (hc : RValid c) {st : St} {ws : List Nat} {d 
     models returns exactly the message; an empty message produces no words; after the last
     symbol the decoder reports that it may be exhausted. -/
 theorem roundtrip {Sym : Type} {c : Cfg} (hc : RValid c) (msg : List (MStep Sym))
-    (hv : ∀ x ∈ msg, x.Valid c) :
+    (hn : MsgFits c msg.length) (hv : ∀ x ∈ msg, x.Valid c) :
     ∃ e ws d0 d, encodeMsg c (Encoder.empty c) msg = .ok e ∧
       intoCompressed c e = .ok ws ∧
       Decoder.fromCompressed c ws = .ok d0 ∧
       decodeMsg c d0 msg = .ok (msg.map (·.sym), d) ∧
       d.maybeExhausted c = .ok true ∧
       (msg = [] → ws = []) := by
-  obtain ⟨e, he, hI, hws⟩ := words_eq_spec hc msg hv
+  obtain ⟨e, he, hI, _, hws⟩ := words_eq_spec hc msg hn hv
   have hwok := words_spec_wordsOK c (msg.map MStep.spec)
   obtain ⟨d0, hd0, hrel0⟩ := fromCompressed_eq hc hwok
   have hN := hc.two_le_nW
@@ -175,19 +175,26 @@ theorem absE_lower {c : Cfg} {e : Encoder} (hI : Inv c e) : e.lower = (absE c e)
     the rest of the message and is then possibly exhausted.  (`post = []` is "seeking to the
     final position".) -/
 theorem seek_resumes {Sym : Type} {c : Cfg} (hc : RValid c) (pre' post : List (MStep Sym))
-    (hv : ∀ x ∈ pre' ++ post, x.Valid c) :
-    ∃ ei e ws, encodeMsg c (Encoder.empty c) pre' = .ok ei ∧
+    (hn : MsgFits c (pre' ++ post).length) (hv : ∀ x ∈ pre' ++ post, x.Valid c) :
+    ∃ ei e ws snap, encodeMsg c (Encoder.empty c) pre' = .ok ei ∧ ei.pos = .ok snap ∧
       encodeMsg c ei post = .ok e ∧ intoCompressed c e = .ok ws ∧
       ∀ d : Decoder, d.data = ws →
-        ∃ d' d'', d.seek c ei.pos.1 ei.pos.2.1 ei.pos.2.2 = .ok d' ∧
+        ∃ d' d'', d.seek c snap.1 snap.2.1 snap.2.2 = .ok d' ∧
           decodeMsg c d' post = .ok (post.map (·.sym), d'') ∧
           d''.maybeExhausted c = .ok true := by
   have hvpre : ∀ x ∈ pre', x.Valid c := fun x hx => hv x (by simp [hx])
   have hvpost : ∀ x ∈ post, x.Valid c := fun x hx => hv x (by simp [hx])
-  obtain ⟨ei, hei, hIi, habsi, _⟩ := encodeMsg_ok pre' (Encoder.empty c) (inv_empty hc) hvpre
-  obtain ⟨e, he, hI, habs, _⟩ := encodeMsg_ok post ei hIi hvpost
+  have hn' : MsgFits c (pre'.length + post.length) := by rw [← List.length_append]; exact hn
+  obtain ⟨ei, hei, hIi, hfi, habsi, _⟩ := encodeMsg_ok' post.length pre' (Encoder.empty c)
+    (inv_empty hc) (fits_empty hn') hvpre
+  obtain ⟨e, he, hI, _, habs, _⟩ := encodeMsg_ok post ei hIi hfi hvpost
+  -- the snapshot
+  have hposok : ei.pos = .ok (ei.bulk.length + ei.situation.held, ei.lower, ei.range) := by
+    have := hfi.held_lt hc
+    unfold Encoder.pos
+    rw [cadd_ok (by omega)]
   -- the whole message
-  obtain ⟨e', he', hI', hws⟩ := words_eq_spec hc (pre' ++ post) hv
+  obtain ⟨e', he', hI', _, hws⟩ := words_eq_spec hc (pre' ++ post) hn hv
   have hcomp : encodeMsg c (Encoder.empty c) (pre' ++ post) = .ok e := by
     have : ∀ (a b : List (MStep Sym)) (x y z : Encoder), encodeMsg c x a = .ok y →
         encodeMsg c y b = .ok z → encodeMsg c x (a ++ b) = .ok z := by
@@ -203,7 +210,7 @@ theorem seek_resumes {Sym : Type} {c : Cfg} (hc : RValid c) (pre' post : List (M
     exact this _ _ _ _ _ hei he
   have hee : e' = e := by rw [hcomp] at he'; cases he'; rfl
   rw [hee] at hws
-  refine ⟨ei, e, _, hei, he, hws, ?_⟩
+  refine ⟨ei, e, _, _, hei, hposok, he, hws, ?_⟩
   intro d hd
   have hwok := words_spec_wordsOK c ((pre' ++ post).map MStep.spec)
   rw [absE_empty] at habsi
@@ -250,9 +257,9 @@ theorem seek_resumes {Sym : Type} {c : Cfg} (hc : RValid c) (pre' post : List (M
     have hlen := sealWords_spec_length c.W c.S (run c.W c.S (absE c ei) (post.map MStep.spec))
     have hmle := (run_m_le c.W c.S (absE c ei) (post.map MStep.spec)).1
     obtain ⟨d', hd', hrel⟩ := seek_eq (c := c) hc hwok hd (st := absE c ei)
-      (pos := ei.pos.1) (lower := ei.pos.2.1) (range := ei.pos.2.2)
+      (pos := ei.bulk.length + ei.situation.held) (lower := ei.lower) (range := ei.range)
       (by
-        have hpm : ei.pos.1 = (absE c ei).m := rfl
+        have hpm : ei.bulk.length + ei.situation.held = (absE c ei).m := rfl
         rw [hpm]; omega)
       rfl (absE_lower hIi) rfl
     obtain ⟨d'', hd'', hrel2⟩ := decodeMsg_ok hwok post _ d' hIi' hvpost hcont hrel
